@@ -1,5 +1,6 @@
 from dataclasses import dataclass, replace
 from enum import Enum
+from fractions import Fraction
 from functools import cached_property
 from typing import Optional, Union, Any
 
@@ -9,6 +10,26 @@ import torch
 from .permutation_utils import inverse_permutation
 
 AnyStateType = Union[torch.Tensor, np.ndarray, list]
+
+
+def _integer_inverse(matrix: np.ndarray) -> Optional[np.ndarray]:
+    """Exact inverse of a square integer matrix (Gauss-Jordan over the rationals), or None if it is not an integer matrix."""
+    n = matrix.shape[0]
+    rows = [[Fraction(int(v)) for v in matrix[i]] + [Fraction(int(i == j)) for j in range(n)] for i in range(n)]
+    for col in range(n):
+        pivot = next((r for r in range(col, n) if rows[r][col] != 0), None)
+        if pivot is None:
+            return None
+        rows[col], rows[pivot] = rows[pivot], rows[col]
+        rows[col] = [v / rows[col][col] for v in rows[col]]
+        for r in range(n):
+            if r != col and rows[r][col] != 0:
+                factor = rows[r][col]
+                rows[r] = [x - factor * y for x, y in zip(rows[r], rows[col])]
+    inverse = [row[n:] for row in rows]
+    if any(v.denominator != 1 or abs(v.numerator) >= 2**63 for row in inverse for v in row):
+        return None
+    return np.array([[int(v) for v in row] for row in inverse], dtype=np.int64)
 
 
 class GeneratorType(Enum):
@@ -89,6 +110,11 @@ class MatrixGenerator:
         """Inverse of this matrix. Throws error if matrix is not invertible."""
         # TODO: implement modular inverse, if needed.
         matrix_inv = np.array(np.rint(np.linalg.inv(self.matrix)), dtype=np.int64)
+        if not np.array_equal(self.apply(matrix_inv), np.eye(self.n)):
+            # The floating-point inverse of an ill-conditioned matrix can be off by more than 1/2: invert exactly.
+            exact_inv = _integer_inverse(self.matrix)
+            if exact_inv is not None:
+                matrix_inv = exact_inv
         assert np.array_equal(self.apply(matrix_inv), np.eye(self.n)), "Matrix is not invertible."
         return MatrixGenerator.create(matrix_inv, self.modulo)
 
